@@ -370,9 +370,9 @@ example : NoLitNames trEx := by
   intro s hs
   simp only [trEx, lookup]
   split
-  · rename_i h; subst h; simp [parseLit] at hs
+  · rename_i h; subst h; exact absurd hs (by decide)
   · split
-    · rename_i h; subst h; simp [parseLit] at hs
+    · rename_i h; subst h; exact absurd hs (by decide)
     · rfl
 example : denoteM trEx eEx = .ok (.vec [3, -3, 15]) := by rfl
 /-- the parser on the printed statement gives the postfix form the evaluator runs -/
@@ -409,9 +409,9 @@ theorem trEx_noLit : NoLitNames trEx := by
   intro s hs
   simp only [trEx, lookup]
   split
-  · rename_i h; subst h; simp [parseLit] at hs
+  · rename_i h; subst h; exact absurd hs (by decide)
   · split
-    · rename_i h; subst h; simp [parseLit] at hs
+    · rename_i h; subst h; exact absurd hs (by decide)
     · rfl
 
 /-- `(a+b)*2-SUM{(-a)}` as the user types it -/
